@@ -68,6 +68,15 @@ func DecodeGOB(raw []byte, node any) error {
 	return nil
 }
 
+// Index names become directory and file names under the data directory, so an
+// index name must be a single path element.
+func IsValidIndexName(indexName string) bool {
+	if indexName == "" || indexName == "." || indexName == ".." {
+		return false
+	}
+	return !strings.ContainsAny(indexName, "/\\\x00")
+}
+
 func CreateStreamId(indexName string, orgId int64) string {
 	// todo this still has a issue of having 50 shards per index, we need to cap it somehow
 	return fmt.Sprintf("%d-%v-%v", rand.Intn(MAX_SHARDS), orgId, xxhash.Sum64String(indexName))
